@@ -53,7 +53,7 @@ def validate_one(args):
 
 
 def validate(srcdir):
-    cands = sorted(d for d in glob.glob(os.path.join(srcdir, "C??_*")) if os.path.isdir(d))
+    cands = sorted(d for d in glob.glob(os.path.join(srcdir, "*C??_*")) if os.path.isdir(d))
     nwt = 6
     wts = []
     for i in range(nwt):
@@ -86,7 +86,7 @@ def validate(srcdir):
                 meta = json.load(open(os.path.join(r["src"], "meta.json")))
             except Exception:
                 pass
-            meta.update({"id": r["id"], "property": r["id"].split("_")[0],
+            meta.update({"id": r["id"], "property": [x for x in r["id"].split("_") if x.startswith("C")][0],
                          "confirmed": {"tests_with_patch": r["tests"], "demo_unchanged_exit": r["demo_unchanged_exit"],
                                        "demo_mutant_exit": r["demo_mutant_exit"],
                                        "how": "git apply in a scratch worktree of /repo HEAD; full pytest suite; demo.py with "
